@@ -381,6 +381,64 @@ def run_shard(campaign, shard, nshards, seed, tier):
                     break       # a rejected set() leaves the attribute assigned; the sequence ends here
                 cur = nxt
             part.distinct({'h': hist})
+    elif campaign == 'set_address':
+        # set_address() on a live layer: accepted exactly for fully defined addresses (documented ValueError otherwise), and whatever
+        # was refused leaves the layer working with the address accepted last - no other exception ever escapes a public call
+        M = isotp.AddressingMode
+        full = [lambda: isotp.Address(M.Normal_11bits, txid=0x123, rxid=0x456),
+                lambda: isotp.Address(M.Extended_29bits, txid=0x1234, rxid=0x4567, target_address=0x55, source_address=0xAA),
+                lambda: isotp.Address(M.Mixed_29bits, target_address=0x55, source_address=0xAA, address_extension=0x99),
+                lambda: isotp.AsymmetricAddress(tx_addr=isotp.Address(M.Normal_11bits, txid=0x321, tx_only=True),
+                                                rx_addr=isotp.Address(M.NormalFixed_29bits, target_address=1, source_address=2, rx_only=True))]
+        bad = [lambda: isotp.Address(M.Normal_11bits, txid=0x123, tx_only=True), lambda: isotp.Address(M.Normal_11bits, rxid=0x123, rx_only=True),
+               lambda: isotp.Address(M.Extended_11bits, rxid=0x12, source_address=3, rx_only=True), lambda: None, lambda: 'address', lambda: 0x123]
+        for _ in range((300 if quick else 10000) // nshards + 1):
+            sent = []
+            inbox = []
+            errs = []
+            cur = rng.choice(full)()
+            layer = isotp.TransportLayerLogic(rxfn=lambda: inbox.pop(0) if inbox else None, txfn=sent.append, address=cur,
+                                              error_handler=errs.append, params={})
+            hist = []
+            for step in range(rng.randint(1, 5)):
+                isbad = rng.random() < 0.5
+                cand = rng.choice(bad if isbad else full)()
+                hist.append(('bad' if isbad else 'full', repr(cand)[:60]))
+                part.d['evaluations'] += 1
+                try:
+                    layer.set_address(cand)
+                    got = 'ok'
+                except ValueError:
+                    got = 'valueerror'
+                except Exception as e:
+                    got = 'other:' + type(e).__name__
+                part.hist('set_address', ('bad' if isbad else 'full') + '/' + got)
+                if got != ('valueerror' if isbad else 'ok'):
+                    part.violation('oracle', campaign, 'C16:set_address-decision', 'set_address history %s: %s' % (hist, got), {'set_address_history': hist})
+                    break
+                if got == 'ok':
+                    cur = cand
+                # the layer must go on working with [cur]: receive a frame addressed to it, answer, send
+                try:
+                    rxid = cur.get_rx_arbitration_id(isotp.TargetAddressType.Physical)
+                    pre = bytes([cur.get_rx_extension_byte()]) if cur.requires_rx_extension_byte() else b''
+                    inbox.append(isotp.CanMessage(arbitration_id=rxid, data=pre + bytes([0x10, 20, 1, 2, 3, 4, 5]), extended_id=cur.is_rx_29bits()))
+                    n0 = len(sent)
+                    layer.process()
+                    layer.send(bytes([1, 2, 3]), isotp.TargetAddressType.Functional)
+                    layer.process()
+                    layer.stop_receiving()
+                    ids = [m_.arbitration_id for m_ in sent[n0:]]
+                    want = [cur.get_tx_arbitration_id(isotp.TargetAddressType.Physical), cur.get_tx_arbitration_id(isotp.TargetAddressType.Functional)]
+                    if ids != want:
+                        part.violation('oracle', campaign, 'C16:layer-not-on-accepted-address', 'after %s the layer emitted identifiers %s, the accepted address says %s' % (
+                            hist, ids, want), {'set_address_history': hist})
+                        break
+                except Exception as e:
+                    part.violation('oracle', campaign, 'C16:exception-after-set_address', 'after set_address history %s a public call raised %s: %s' % (
+                        hist, type(e).__name__, str(e)[:100]), {'set_address_history': hist})
+                    break
+            part.distinct({'h': hist})
     return part.result()
 
 
@@ -388,5 +446,6 @@ def run(ctx):
     run_sharded(ctx, 'C16', 'address')
     run_sharded(ctx, 'C16', 'params')
     run_sharded(ctx, 'C16', 'set')
+    run_sharded(ctx, 'C16', 'set_address')
     ctx.exhaustive['address: all pairs of parameter values (quick, every 4th) / full product (thorough); params: all pairs of key values (quick: every 8th)'] = not ctx.quick
     return RULE, ASSUME
